@@ -872,6 +872,9 @@ class TT():
         if not self.__is_ttm or other.is_ttm:
             raise IncompatibleTypes(
                 'First operand should be a TT matrix and second a TT vector.')
+        if self.__N != other.N:
+            raise ShapeMismatch('Shapes are incompatible: first operand is %s x %s, second operand is %s.' % (
+                str(self.M), str(self.N), str(other.N)))
 
         return dmrg_matvec(self, other, y0=initial, eps=eps, verb=verb, nswp=nswp, use_cpp=use_cpp)
 
